@@ -45,7 +45,7 @@ SkipWs(b, i) == Span(b, i, {32})
 RECURSIVE DigitsVal(_, _, _)
 DigitsVal(b, i, j) == IF j < i THEN 0 ELSE DigitsVal(b, i, j - 1) * 10 + (b[j] - 48)
 \* index / slice / union integer: -? digit+ .  ALLOW: leading zeros, -0, more than 9 digits (beyond small integers)
-Int(b, i) ==
+IntLit(b, i) ==
     LET neg == At(b, i) = 45
         s == IF neg THEN i + 1 ELSE i
         e == Span(b, s, Digit) IN
@@ -140,7 +140,7 @@ Bracket(b, i0) ==
               ELSE IF At(b, j) = 44 THEN Union(b, j, <<[is |-> TRUE, k |-> s.v]>>, ws \/ s.t \/ j # s.i)
               ELSE Fail(j, "bracket-close")
     ELSE IF c = 45 \/ c \in Digit THEN
-         LET n == Int(b, i) IN
+         LET n == IntLit(b, i) IN
          IF ~n.ok THEN n
          ELSE LET j == SkipWs(b, n.i) IN
               IF At(b, j) = 93 THEN Ok(j + 1, Nth(n.v), ws \/ n.t \/ j # n.i)
@@ -169,7 +169,7 @@ Union(b, i, items, t) ==
               IF At(b, k) = 93 THEN Ok(k + 1, [f |-> "union", u |-> its], tt)
               ELSE IF At(b, k) = 44 THEN Union(b, k, its, tt) ELSE Fail(k, "union-close")
     ELSE IF c = 45 \/ c \in Digit THEN
-         LET n == Int(b, j) IN
+         LET n == IntLit(b, j) IN
          IF ~n.ok THEN n
          ELSE LET k == SkipWs(b, n.i) its == Append(items, [is |-> FALSE, i |-> n.v]) tt == t \/ n.t \/ j # i + 1 \/ k # n.i IN
               IF At(b, k) = 93 THEN Ok(k + 1, [f |-> "union", u |-> its], tt)
@@ -186,7 +186,7 @@ Slice(b, i0, parts, t) ==
     IF c = 93 THEN Ok(i + 1, done(parts), t \/ ws)
     ELSE IF c = 58 THEN (IF Len(parts) = 2 THEN Fail(i, "slice-parts") ELSE Slice(b, i + 1, Append(parts, dflt), t \/ ws))
     ELSE IF c = 45 \/ c \in Digit THEN
-         LET n == Int(b, i) IN
+         LET n == IntLit(b, i) IN
          IF ~n.ok THEN n
          ELSE LET j == SkipWs(b, n.i) ps == Append(parts, n.v) tt == t \/ ws \/ n.t \/ j # n.i IN
               IF At(b, j) = 93 THEN Ok(j + 1, done(ps), tt)
@@ -194,7 +194,7 @@ Slice(b, i0, parts, t) ==
                                           LET k == SkipWs(b, j + 1) IN
                                           IF At(b, k) = 93 THEN Ok(k + 1, done(ps), tt \/ k # j + 1)
                                           ELSE IF Len(ps) = 2 /\ (At(b, k) = 45 \/ At(b, k) \in Digit) THEN
-                                               LET m == Int(b, k) IN
+                                               LET m == IntLit(b, k) IN
                                                IF ~m.ok THEN m
                                                ELSE LET l == SkipWs(b, m.i) IN
                                                     IF At(b, l) = 93 THEN Ok(l + 1, done(Append(ps, m.v)), tt \/ m.t \/ k # j + 1 \/ l # m.i)
@@ -204,6 +204,10 @@ Slice(b, i0, parts, t) ==
     ELSE Fail(i, "slice")
 
 \* ---------------------------------------------------------------- scripts
+\* the tree an item sequence denotes: groups first, then PathText!ParseItems (precedence levels, equal precedence left to
+\* right, "!" takes the rest)
+RECURSIVE Intended(_)
+Intended(items) == ParseItems([n \in 1..Len(items) |-> IF items[n].k = "grp" THEN Atom(Intended(items[n].g)) ELSE items[n]])
 AtomI(t) == [k |-> "atom", t |-> t]
 ConstT(v) == [op |-> "const", v |-> v]
 SymOps == <<<<61, 61>>, <<33, 61>>, <<60, 61>>, <<62, 61>>, <<38, 38>>, <<124, 124>>, <<61, 126>>, <<126, 61>>,
@@ -318,7 +322,7 @@ ListC(b, i0, n, t) ==
               ELSE Fail(j, "list-close")
 
 \* ---------------------------------------------------------------- whole texts
-Verdict(r) == IF r.ok THEN (IF r.t THEN "any" ELSE "acc") ELSE IF r.ab THEN "any" ELSE "rej"
+VerdictOf(r) == IF r.ok THEN (IF r.t THEN "any" ELSE "acc") ELSE IF r.ab THEN "any" ELSE "rej"
 \* jp.ParseString(text)
 RecognisePath(b) ==
     LET c == At(b, 1) IN
@@ -336,4 +340,35 @@ RecognisePath(b) ==
 RecogniseScript(b) ==
     LET e == Expr(b, 1, <<>>, FALSE) IN
     IF ~e.ok THEN e ELSE IF e.i <= Len(b) THEN Fail(e.i, "script-end") ELSE e
+
+\* ---------------------------------------------------------------- comparing denotations
+\* f: a script tree as observed (the harness' projection of the parsed program: groups "(" are transparent, op "?" = not
+\* available) or another specification tree; a: the specification tree.  Floats and lists by kind, sub-paths by kind.
+LeafEq(fv, av) == CASE av.t = "int" -> fv.t = "int" /\ "v" \in DOMAIN fv /\ fv.v = av.v
+                    [] av.t = "str" -> fv.t = "str" /\ fv.v = av.v
+                    [] av.t = "bool" -> fv.t = "bool" /\ fv.v = av.v
+                    [] av.t = "rx" -> fv.t = "rx" /\ fv.p = av.p
+                    [] OTHER -> fv.t = av.t
+RECURSIVE ShapeEq(_, _)
+ShapeEq(f, a) == IF f.op = "?" THEN TRUE
+                 ELSE IF f.op = "(" THEN ShapeEq(f.l, a)
+                 ELSE IF a.op = "const" THEN f.op = "const" /\ LeafEq(f.v, a.v)
+                 ELSE IF a.op = "path" THEN f.op = "path"
+                 ELSE /\ (IF f.op = "~=" THEN "=~" ELSE f.op) = a.op
+                      /\ "l" \in DOMAIN f /\ ShapeEq(f.l, a.l)
+                      /\ ("r" \in DOMAIN a) = ("r" \in DOMAIN f)
+                      /\ ("r" \in DOMAIN a => ShapeEq(f.r, a.r))
+TreeOfFilter(g) == IF "items" \in DOMAIN g THEN Intended(g.items) ELSE g.tree
+FragEq(a, g) == /\ a.f = g.f
+                /\ CASE a.f = "child" -> a.k = g.k
+                      [] a.f = "nth" -> a.i = g.i
+                      [] a.f = "slice" -> a.s = g.s
+                      [] a.f = "union" -> Len(a.u) = Len(g.u) /\ \A j \in 1..Len(a.u) :
+                                             a.u[j].is = g.u[j].is /\ (IF a.u[j].is THEN a.u[j].k = g.u[j].k ELSE a.u[j].i = g.u[j].i)
+                      [] a.f = "filter" -> ShapeEq(TreeOfFilter(g), TreeOfFilter(a))
+                      [] OTHER -> TRUE
+\* a = the fragments the text denotes, g = the fragments observed
+SameFrags(a, g) == Len(a) = Len(g) /\ \A j \in 1..Len(a) : FragEq(a[j], g[j])
+FirstDiff(a, g) == IF \E j \in 1..Len(a) : j > Len(g) \/ ~FragEq(a[j], g[j])
+                   THEN MinIn({j \in 1..Len(a) : j > Len(g) \/ ~FragEq(a[j], g[j])}) ELSE Len(a) + 1
 =============================================================================
